@@ -60,6 +60,9 @@ func SelfTest() error {
 		{`UPDATE bs SET (ida, opt) = ($1, $2) WHERE id = $3 RETURNING ida`, []any{1, 1, 1}, "val:1"},
 		{`UPDATE bs SET (ida, opt) = ($1, $2) WHERE id = $3 RETURNING ida`, []any{5, 1, 1}, "err:foreign key constraint"},
 		{`UPDATE bs SET (ida, opt) = ($1, $2) WHERE id = $3 RETURNING ida`, []any{1, 1, 77}, "rows:0"},
+		{`UPDATE bs SET opt = $1 WHERE ida = $2`, []any{nil, 1}, "rows:0"},
+		{`SELECT id FROM bs WHERE opt IS NULL`, nil, "rows:1"},
+		{`UPDATE bs SET ida = $1, opt = $1 WHERE id = $2`, []any{8, 1}, "err:foreign key constraint"},
 		{`INSERT INTO as DEFAULT VALUES RETURNING id;`, nil, "err:not-null"},
 		{`INSERT INTO as () VALUES () RETURNING id`, nil, "err:syntax"},
 	}
